@@ -1019,6 +1019,14 @@ class FuncAnalysis:
             self._guards.pop()
 
     def _s_For(self, s):
+        if self._unrollable(s):
+            # a loop over a literal list of constants is the copy-pasted statements it abbreviates
+            for elt in s.iter.elts:
+                self._assign(s.target, self.ev(elt), s)
+                st = self._block(s.body)
+                if st is not None:
+                    return st
+            return None
         it = self.ev(s.iter)
         if it[0] == 'call' and it[1][0] == 'attr' and it[1][2] == 'keys' and not it[2] and not it[3]:
             it = it[1][1]           # iterating a mapping is iterating its keys
@@ -1043,6 +1051,26 @@ class FuncAnalysis:
         return None
 
     _s_AsyncFor = _s_For
+
+    @staticmethod
+    def _unrollable(s):
+        if not isinstance(s.iter, (ast.List, ast.Tuple)) or not (1 <= len(s.iter.elts) <= 8) or s.orelse:
+            return False
+
+        def simple(e):
+            return isinstance(e, ast.Constant) or (isinstance(e, ast.Tuple) and e.elts and all(isinstance(x, (ast.Constant, ast.Name)) for x in e.elts))
+        if not all(simple(e) for e in s.iter.elts):
+            return False
+        # no break / continue that belongs to this loop
+        stack = list(s.body)
+        while stack:
+            n = stack.pop()
+            if isinstance(n, (ast.Break, ast.Continue)):
+                return False
+            if isinstance(n, (ast.For, ast.AsyncFor, ast.While, ast.FunctionDef, ast.AsyncFunctionDef, ast.ClassDef, ast.Lambda)):
+                continue
+            stack.extend(ast.iter_child_nodes(n))
+        return True
 
     def _bind_loop_target(self, tgt, it, li, path):
         if isinstance(tgt, ast.Name):
@@ -1765,6 +1793,11 @@ class FuncAnalysis:
                     kws.append(('dstar', v))
             else:
                 kws.append(T.kw(k.arg, self.ev(k.value)))
+        if f in (T.G('all'), T.G('any')) and len(args) == 1 and not kws and args[0][0] == 'comp' and args[0][1] in ('gen', 'list'):
+            # all(t(k) for k in ('a', 'b'))  is  t('a') and t('b')
+            un = self._unroll_comp(args[0][3], [args[0][2]])
+            if un is not None:
+                return T.nary('and' if f == T.G('all') else 'or', tuple(T.as_cond(x[0]) for x in un))
         args, kws = self._canon_args(f, args, kws)
         done, val = self._inline_body(f, args, kws, n)
         if done:
